@@ -90,9 +90,66 @@ pub proof fn lemma_gzip_hdr_bounds(s: Seq<u8>)
 }
 
 // ---- what the scanner must emit (C06): the chunk list as a function of the file ----
-/// A-DET for parse_idat: it is a function of its input (its verified contract in U7 says what an Ok result satisfies)
+/// what parse_idat returns, as a function of its input (proved in U7 against idat_run): the maximal run of complete,
+/// non-empty IDAT chunks with matching CRCs; its concatenated payload is zlib header (2) + stream + Adler-32 (4)
 pub struct IdatV { pub sizes: Seq<u32>, pub hdr: Seq<u8>, pub adler: u32, pub total: nat }
-pub uninterp spec fn idat_parse_spec(s: Seq<u8>) -> Option<(IdatV, Seq<u8>)>;
+pub open spec fn idat_parse_spec(s: Seq<u8>) -> Option<(IdatV, Seq<u8>)> {
+    if s.len() < 12 || s.subrange(4, 8) != idat_tag() { None } else {
+        let r = idat_run(s);
+        if !r.ok || r.z.len() < 6 { None } else {
+            let n = r.z.len() as int;
+            Some((IdatV { sizes: r.sizes, hdr: r.z.subrange(0, 2), adler: be32_val(r.z.subrange(n - 4, n)), total: (sum_u32(r.sizes) + 12 * r.sizes.len()) as nat },
+                  r.z.subrange(2, n - 4)))
+        }
+    }
+}
+/// the U7 contract of parse_idat, restated over idat_parse_spec
+pub proof fn lemma_idat_parse_spec(s: Seq<u8>, ok: bool, sizes: Seq<u32>, hdr: Seq<u8>, adler: u32, total: nat, p: Seq<u8>)
+    requires
+        ok == (s.len() >= 12 && s.subrange(4, 8) == idat_tag() && idat_run(s).ok && idat_run(s).z.len() >= 6),
+        ok ==> sizes == idat_run(s).sizes && hdr + p + be32(adler) == idat_run(s).z && hdr.len() == 2
+            && total == sum_u32(sizes) + 12 * sizes.len(),
+    ensures
+        ok <==> idat_parse_spec(s) is Some,
+        ok ==> idat_parse_spec(s) == Some((IdatV { sizes, hdr, adler, total }, p)),
+{
+    if ok {
+        let z = idat_run(s).z; let n = z.len() as int;
+        lemma_be32_inverse(adler);
+        assert(z.subrange(0, 2) =~= hdr);
+        assert(z.subrange(n - 4, n) =~= be32(adler));
+        assert(z.subrange(2, n - 4) =~= p);
+    }
+}
+/// C06 for the IDAT wrapper, in the words of the property: the file holds, from offset a, a run of IDAT chunks (each
+/// non-empty, CRCs as PNG defines them) whose concatenated payload is hdr(2) + stream + Adler-32, and what follows the
+/// run does not begin a further complete IDAT chunk (arbitrary other bytes, or nothing). Then parse_idat returns
+/// exactly that run and that stream.
+pub proof fn lemma_c06_idat_run(f: Seq<u8>, a: int, sizes: Seq<u32>, hdr: Seq<u8>, adler: u32, p: Seq<u8>)
+    requires 0 <= a, sizes.len() > 0, all_nonzero(sizes), hdr.len() == 2, sum_u32(sizes) == p.len() + 6,
+        a + p.len() + 6 + 12 * sizes.len() <= f.len(),
+        f.subrange(a, a + p.len() + 6 + 12 * sizes.len()) == idat_bytes(sizes, hdr, adler, p),
+        idat_chunk_at(f.skip(a + p.len() + 6 + 12 * sizes.len())) is None,
+    ensures
+        idat_parse_spec(f.skip(a)) == Some((IdatV { sizes, hdr, adler, total: (p.len() + 6 + 12 * sizes.len()) as nat }, p)),
+{
+    let s = f.skip(a);
+    lemma_be32_inverse(adler);
+    let z = hdr + p + be32(adler);
+    let n = (z.len() + 12 * sizes.len()) as int;
+    assert(s.subrange(0, n) =~= f.subrange(a, a + n));
+    assert(s.skip(n) =~= f.skip(a + n));
+    lemma_idat_run_complete(s, sizes, z);
+    // the first chunk's tag sits at bytes 4..8
+    lemma_be32_inverse(sizes[0]);
+    let k = sizes[0] as int;
+    let head = be32(sizes[0]) + idat_tag() + z.subrange(0, k) + be32(crc32_spec(idat_tag() + z.subrange(0, k)));
+    assert(idat_chunks(sizes, z) == head + idat_chunks(sizes.skip(1), z.skip(k)));
+    assert(s.subrange(4, 8) =~= idat_tag()) by {
+        assert forall|i: int| 0 <= i < 4 implies s[4 + i] == idat_tag()[i] by { assert(s[4 + i] == s.subrange(0, n)[4 + i]); assert(idat_chunks(sizes, z)[4 + i] == head[4 + i]); }
+    }
+    lemma_idat_parse_spec(s, true, sizes, hdr, adler, (p.len() + 6 + 12 * sizes.len()) as nat, p);
+}
 
 pub enum ChunkV { Lit(nat), Def(ResV), Idat(IdatV, ResV) }
 pub struct Probe { pub start: int, pub chunk: ChunkV, pub next: int }
